@@ -112,6 +112,10 @@ Issue::ReferenceRule validateCellmlIdentifier(const std::string &name)
         if (name.find_first_not_of("abcdefghijklmnopqrstuvwxyzABCDEFGHIJKLMNOPQRSTUVWXYZ0123456789_") != std::string::npos) {
             return Issue::ReferenceRule::DATA_REPR_IDENTIFIER_LATIN_ALPHANUM;
         }
+        // At least one alphanumeric character (underscores alone do not make an identifier).
+        if (name.find_first_not_of('_') == std::string::npos) {
+            return Issue::ReferenceRule::DATA_REPR_IDENTIFIER_AT_LEAST_ONE_ALPHANUM;
+        }
     } else {
         // Empty string.
         return Issue::ReferenceRule::DATA_REPR_IDENTIFIER_AT_LEAST_ONE_ALPHANUM;
